@@ -42,6 +42,8 @@ partial def decFrom : Sx → Option From
   | .list [.atom "cross", l, r] => do pure (From.cross (← decFrom l) (← decFrom r))
   | .list [.atom "inner", l, r, e] => do pure (From.inner (← decFrom l) (← decFrom r) (← decExpr e))
   | .list [.atom "left", l, r, e] => do pure (From.left (← decFrom l) (← decFrom r) (← decExpr e))
+  | .list [.atom "right", l, r, e] => do pure (From.right (← decFrom l) (← decFrom r) (← decExpr e))
+  | .list [.atom "full", l, r, e] => do pure (From.full (← decFrom l) (← decFrom r) (← decExpr e))
   | _ => none
 
 def decGroup : Sx → Option (Option Group)
